@@ -434,6 +434,14 @@ func (c *FnCtx) evalAddrOf(x *ast.UnaryExpr, st *State) string {
 			return b.term
 		}
 		c.fail(x.Pos(), "address of non-promoted variable %s", y.Name)
+	case *ast.SelectorExpr:
+		if id, ok := unparen(y.X).(*ast.Ident); ok {
+			if obj := c.info().Uses[id]; obj != nil {
+				if r, ok := c.fieldCells[obj][y.Sel.Name]; ok {
+					return r
+				}
+			}
+		}
 	}
 	c.fail(x.Pos(), "unsupported address-of expression (interior pointers are not modelled)")
 	return ""
